@@ -206,6 +206,23 @@ def _part_a(rank, n, subj, seed, pair_quota):
 
 
 # ---------------------------------------------------------------- part B
+def single_call_bodies():
+    """routines whose whole body is one call, written without begin/end: `define g f 4` and `define g [f 4]`"""
+    N = lambda v: ('num', v)
+    V = lambda n: ('var', n)
+    f = ('define', 'f', ('p',), (('print', V('p')),))
+    f0 = ('define', 'f0', (), (('print', N(7)),))
+    idn = ('define', 'idn', ('q',), (('return', V('q')),))
+    for params, call in [((), ('callst', 'f', (N(4),), False)), ((), ('callst', 'f0', (), False)),
+                         (('q',), ('callst', 'f', (V('q'),), False)),
+                         ((), ('callst', 'f', (('call', 'idn', (N(2),)),), False)),
+                         (('q', 'r'), ('callst', 'f', (('bin', '+', V('q'), V('r')),), False))]:
+        g = ('define', 'g', params, (call,))
+        args = tuple(N(i + 1) for i in range(len(params)))
+        yield (f, f0, idn, g, ('callst', 'g', args, False), ('callst', 'g', args, True))
+        yield (f, f0, idn, ('if', ((N(1), (g,)),), None), ('callst', 'g', args, False))
+
+
 def flip_calls(prog):
     """all programs obtained by flipping the bracket flag of one call statement"""
     out = []
@@ -317,7 +334,8 @@ def _part_b(rank, n):
         itertools.islice(gen_v.programs(2, world.POP_THREE), 0, None, 3),
         ((0, p) for tag, p in gen_loops.single(world.POP_THREE) if tag.startswith('in')),
         # routine calls with calls among their arguments, as statements and as values
-        ((0, p) for p in itertools.islice(gen_scope.programs(2), 0, None, 23)))
+        ((0, p) for p in itertools.islice(gen_scope.programs(2), 0, None, 23)),
+        ((0, p) for p in single_call_bodies()))
     for n_, prog in gens:
         idx += 1
         if idx % n != rank:
